@@ -88,7 +88,7 @@ for p in props:
         na.append({"property_id": i, "reason": PENDING.get(i, "check not built yet in this round (see DESIGN.md §9 build order); not claimed")})
 m = {
  "version": 1,
- "setup_cmd": "cd harness && CARGO_NET_OFFLINE=true cargo build --offline -q -p vcheck && VERIF_DIR=/verif ./target/debug/vcheck setup",
+ "setup_cmd": "cd harness && CARGO_NET_OFFLINE=true cargo build --offline -q -p vcheck && CARGO_NET_OFFLINE=true cargo build --offline -q -p vcheck --profile nodebug && VERIF_DIR=/verif ./target/debug/vcheck setup",
  "hooks": {"guard": "--cfg darling_verif", "enable": "no hooks are needed: every observation point is public API (DESIGN.md §6); checks build /repo as a cargo path dependency of /verif/harness",
            "baseline_off_cmd": "cd /repo && cargo test --workspace --no-fail-fast --offline", "source_commits": [], "add_only": True},
  "engines": [
